@@ -596,7 +596,7 @@ impl Monitor for C04 {
         vec![("runs", tier.pick(21_000, 420_000)), ("exact_fit", tier.pick(6_000, 120_000)), ("big_batches", tier.pick(600, 12_000)), ("split_runs", tier.pick(9_000, 180_000)), ("block_inline", tier.pick(9_000, 180_000)), ("block_twin", tier.pick(6_000, 120_000))]
     }
     fn rule(&self) -> &'static str {
-        "case i -> objective (i mod 7), optimizer kind (i/7 mod 5: SGD, SGDM, Adam, AdamW, RMSprop with random decay / dampening / momentum / centred), N in 1..23, B from {1,2,3,5,7,N-1,N,N+1, one of 64 / 1000 / usize::MAX/2 / usize::MAX-3 / usize::MAX} (so B=1, B not dividing N and B>N occur in every block of nine cases), E in 1..5, validation data in every second case, the objective gradient clamped in every fifth case, 6..12 epochs in every ninth, pools of 1..8 threads; random network of dense/conv/deconv/max-pool layers ending in a dense layer, pairwise different samples. (a) the hooked Forward/Update event log of the learn() call (and, in every third case, of a second learn() call on the same network, with another batch size and only a prefix of the samples) must match the trace grammar: per epoch the consecutive groups of B samples, each sample's forward pass exactly once and all before the group's single Update, Update step number = epoch index, then every validation sample once; nothing else. (b) a twin trainer recomputes the run: per-sample gradients from the library's own forward + hooked backward at the twin's weights, summed in sample order, one step of the documented update rule per group; final weights must agree within 1e-4 x (|w| + distance travelled) + 1e-6 and the per-epoch loss must equal the mean over groups of the mean per-sample loss. big_batches: the same two checks with N in {65,66,70,100,127..130,150,200,257} and B in {N, N-1, 64, 65, 70, 100, 128, 129, random 65..N} (groups larger than the library's parallel chunk of 64, mostly not a multiple of it), small networks. exact_fit: the same two checks on dense networks whose first layer is a ReLU layer with positive weights and negative bias followed by bias-free layers, with runs of samples that are fitted exactly (negative inputs, zero targets: loss 0, gradient 0) between ordinary samples, objectives AE / MAE / MSE: a group whose samples are all fitted exactly still receives its optimizer step (momentum, moment estimates and weight decay keep acting). split_runs: architectures the twin does not model (feedback blocks with and without bias, a skip or a loop connection), plain SGD with and without decay: one learn() call over G groups and E epochs must leave bit-identical weights to E*G learn() calls of one group each on an identically built network, and report the mean of those calls' losses per epoch (nothing is carried from one group to the next). block_twin: chain networks with one feedback block (mean coupling, no internal skips, 1..4 loops, all five optimizers): the twin lets every unrolled copy take one step of the documented rule on the sum of its own per-sample gradients (own state per copy) and couples the copies by the arithmetic mean; final weights and epoch losses as in `runs`, the tolerance additionally loosened by the sensitivity of the run (distance to a twin started one ulp away); runs whose weights grow beyond 50x the initial scale or whose loss exceeds 1e6, and runs in which the one-ulp twin or the f32 twin ends more than 0.1 % away from the f64 twin (rounding noise amplified), are counted, not judged. block_inline: a chain network and the same network with one shape-preserving layer wrapped into a feedback block of ONE loop (no internal skips) are trained with the same data and the same optimizer (all five kinds, stateful ones included): final weights and epoch losses must agree (1e-3 relative to the weight change; bit-identical pairs are counted). Distinct = distinct (network, optimizer, N, B, E) descriptors."
+        "case i -> objective (i mod 7), optimizer kind (i/7 mod 5: SGD, SGDM, Adam, AdamW, RMSprop with random decay / dampening / momentum / centred), N in 1..23, B from {1,2,3,5,7,N-1,N,N+1, one of 64 / 1000 / usize::MAX/2 / usize::MAX-3 / usize::MAX} (so B=1, B not dividing N and B>N occur in every block of nine cases), E in 1..5, validation data in every second case, the objective gradient clamped in every fifth case, 6..12 epochs in every ninth, pools of 1..8 threads; random network of dense/conv/deconv/max-pool layers ending in a dense layer, pairwise different samples. (a) the hooked Forward/Update event log of the learn() call (and, in every third case, of a second learn() call on the same network, with another batch size and only a prefix of the samples; the twin trainer of (b) goes through both calls, carrying the optimizer state over, and the weights after the second call are compared as well) must match the trace grammar: per epoch the consecutive groups of B samples, each sample's forward pass exactly once and all before the group's single Update, Update step number = epoch index, then every validation sample once; nothing else. (b) a twin trainer recomputes the run: per-sample gradients from the library's own forward + hooked backward at the twin's weights, summed in sample order, one step of the documented update rule per group; final weights must agree within 1e-4 x (|w| + distance travelled) + 1e-6 and the per-epoch loss must equal the mean over groups of the mean per-sample loss. big_batches: the same two checks with N in {65,66,70,100,127..130,150,200,257} and B in {N, N-1, 64, 65, 70, 100, 128, 129, random 65..N} (groups larger than the library's parallel chunk of 64, mostly not a multiple of it), small networks. exact_fit: the same two checks on dense networks whose first layer is a ReLU layer with positive weights and negative bias followed by bias-free layers, with runs of samples that are fitted exactly (negative inputs, zero targets: loss 0, gradient 0) between ordinary samples, objectives AE / MAE / MSE: a group whose samples are all fitted exactly still receives its optimizer step (momentum, moment estimates and weight decay keep acting). split_runs: architectures the twin does not model (feedback blocks with and without bias, a skip or a loop connection), plain SGD with and without decay: one learn() call over G groups and E epochs must leave bit-identical weights to E*G learn() calls of one group each on an identically built network, and report the mean of those calls' losses per epoch (nothing is carried from one group to the next). block_twin: chain networks with one feedback block (mean coupling, no internal skips, 1..4 loops, all five optimizers): the twin lets every unrolled copy take one step of the documented rule on the sum of its own per-sample gradients (own state per copy) and couples the copies by the arithmetic mean; final weights and epoch losses as in `runs`, the tolerance additionally loosened by the sensitivity of the run (distance to a twin started one ulp away); runs whose weights grow beyond 50x the initial scale or whose loss exceeds 1e6, and runs in which the one-ulp twin or the f32 twin ends more than 0.1 % away from the f64 twin (rounding noise amplified), are counted, not judged. block_inline: a chain network and the same network with one shape-preserving layer wrapped into a feedback block of ONE loop (no internal skips) are trained with the same data and the same optimizer (all five kinds, stateful ones included): final weights and epoch losses must agree (1e-3 relative to the weight change; bit-identical pairs are counted). Distinct = distinct (network, optimizer, N, B, E) descriptors."
     }
     fn assumptions(&self) -> Vec<&'static str> {
         vec![
@@ -867,7 +867,10 @@ impl Monitor for C04 {
         let objf = objective::Function::create(lib_obj(obj), clamp);
         let fitted_groups = std::cell::Cell::new(0u64);
         let fitted_after_first = std::cell::Cell::new(0u64);
-        let run_twin = |single: bool| -> Result<(Vec<Vec<f64>>, Vec<Vec<f64>>, Vec<f64>), String> {
+        // `calls`: the learn() calls made on the network so far, each (samples used = the first m,
+        // batch size, epochs): weights AND optimizer state carry over from call to call, the step
+        // number restarts at 1 with every call (it is the epoch index of that call)
+        let run_twin = |single: bool, calls: &[(usize, usize, usize)]| -> Result<(Vec<Vec<f64>>, Vec<Vec<f64>>, Vec<f64>), String> {
             let mut w: Vec<Vec<f64>> = params.iter().map(|p| p.flat().iter().map(|v| *v as f64).collect()).collect();
             let mut st: Vec<Vec<St<f64>>> = w.iter().map(|l| vec![St::default(); l.len()]).collect();
             let mut st32: Vec<Vec<St<f32>>> = w.iter().map(|l| vec![St::default(); l.len()]).collect();
@@ -875,6 +878,8 @@ impl Monitor for C04 {
             let mut twin_loss: Vec<f64> = Vec::new();
             let mut cur = params.clone();
             guard(|| {
+              for (call, (n, batch, epochs)) in calls.iter().cloned().enumerate() {
+                twin_loss.clear();
                 for epoch in 1..=epochs {
                     let mut loss_epoch = 0.0f64;
                     let mut groups = 0usize;
@@ -900,7 +905,7 @@ impl Monitor for C04 {
                         }
                         loss_epoch += lsum / g.len() as f64;
                         groups += 1;
-                        if !single && lsum == 0.0 && sum.iter().all(|l| l.iter().all(|v| *v == 0.0)) {
+                        if !single && call == 0 && calls.len() == 1 && lsum == 0.0 && sum.iter().all(|l| l.iter().all(|v| *v == 0.0)) {
                             fitted_groups.set(fitted_groups.get() + 1);
                             if epoch > 1 || g[0] > 0 {
                                 fitted_after_first.set(fitted_after_first.get() + 1);
@@ -928,10 +933,11 @@ impl Monitor for C04 {
                     }
                     twin_loss.push(loss_epoch / groups as f64);
                 }
+              }
             })?;
             Ok((w, travel, twin_loss))
         };
-        let (w, travel, twin_loss, wb, twin_loss_b) = match (run_twin(false), run_twin(true)) {
+        let (w, travel, twin_loss, wb, twin_loss_b) = match (run_twin(false, &[(n, batch, epochs)]), run_twin(true, &[(n, batch, epochs)])) {
             (Ok((w, t, l)), Ok((wb, _, lb))) => (w, t, l, wb, lb),
             (Err(m), _) | (_, Err(m)) => {
                 out.inconclusive = Some(format!("twin trainer failed: {} [{}]", short(&m, 200), desc));
@@ -1013,6 +1019,32 @@ impl Monitor for C04 {
                         out.viol("train:epochs", format!("second learn() call: {} training-loss entries for {} epochs [{}]", tl2.len(), e2, desc), detail());
                     } else if let Err((sig, what)) = check_trace(&events2, &ttags[..m], None, b2, e2) {
                         out.viol(&format!("{}:second-call", sig), format!("second learn() call on the same network: {} [{}]", what, desc), detail());
+                    }
+                    // the twin goes through both calls: the optimizer state left by the first
+                    // call is what the second call continues from
+                    if tl2.len() == e2 && epochs == tl.len() && !may_stop {
+                        let calls = [(n, batch, epochs), (m, b2, e2)];
+                        if let (Ok((w2, t2, l2)), Ok((w2b, _, l2b))) = (run_twin(false, &calls), run_twin(true, &calls)) {
+                            let lib2: Vec<f32> = get_params(&net).iter().flat_map(|(_, v)| v.clone()).collect();
+                            let tw: Vec<f64> = w2.iter().flatten().cloned().collect();
+                            let twb: Vec<f64> = w2b.iter().flatten().cloned().collect();
+                            let tv: Vec<f64> = t2.iter().flatten().cloned().collect();
+                            let wild = tw.iter().chain(twb.iter()).any(|v| !v.is_finite() || v.abs() > 1e15) || l2.iter().chain(l2b.iter()).any(|v| !v.is_finite() || v.abs() > 1e30) || lib2.iter().any(|v| !v.is_finite());
+                            if !wild && lib2.len() == tw.len() {
+                                out.count("second_learn_calls_compared_with_the_twin_(state_carried_over)", 1);
+                                for k in 0..lib2.len() {
+                                    let tol = 1e-4 * (tw[k].abs() + tv[k]) + 1e-6 + 8.0 * (tw[k] - twb[k]).abs();
+                                    if (lib2[k] as f64 - tw[k]).abs() > tol {
+                                        out.viol(
+                                            &format!("train:weights:second-call:{}", opt.name()),
+                                            format!("after a second learn() call (first {} samples, batch {}, {} epochs) parameter {} is {:e}; the twin, continuing with the optimizer state the first call left, gives {:e} (tolerance {:e}) [{}]", m, b2, e2, k, lib2[k], tw[k], tol, desc),
+                                            detail(),
+                                        );
+                                        break;
+                                    }
+                                }
+                            }
+                        }
                     }
                 }
                 Err(m) => {
